@@ -124,10 +124,10 @@ pub fn run_struct(rec: &J) -> Outcome {
     let twin = match to_object(&s) { Ok(o) => o, Err(e) => return fail("to_object failed", json!(e.to_string())) };
     if let Err(d) = check("serde twin", &observe(&twin, &probes), want) { return fail("serde-converted struct differs from LiquidViews", d); }
     if let Err(d) = check("derived to_value()", &observe(&s.to_value(), &probes), want) { return fail("derived to_value differs", d); }
-    match from_value::<S>(&twin) {
-        Ok(back) => { if let Err(d) = check("from_value::<S>", &observe(&back, &probes), want) { return fail("struct rebuilt by from_value differs", d); } }
+    let back = match from_value::<S>(&twin) {
+        Ok(back) => { if let Err(d) = check("from_value::<S>", &observe(&back, &probes), want) { return fail("struct rebuilt by from_value differs", d); } back }
         Err(e) => return fail("from_value::<S> failed", json!(e.to_string())),
-    }
+    };
     // in templates: the derived struct and its serde twin print the same, and what the specification says
     let wr = rec["render"].as_str().unwrap_or("");
     let mut g1: HashMap<String, &dyn ValueView> = HashMap::new();
@@ -135,6 +135,13 @@ pub fn run_struct(rec: &J) -> Outcome {
     let mut g2 = liquid::Object::new();
     g2.insert("s".into(), Value::Object(twin));
     let (o1, o2) = TPL.with(|t| (t.render(&g1).map_err(|e| e.to_string()), t.render(&g2).map_err(|e| e.to_string())));
+    // the struct that came back from the Liquid side (Rust -> Liquid -> Rust) prints the same, field by field
+    let mut g3: HashMap<String, &dyn ValueView> = HashMap::new();
+    g3.insert("s".to_string(), &back as &dyn ValueView);
+    let o3 = TPL.with(|t| t.render(&g3).map_err(|e| e.to_string()));
+    if o3.as_deref() != Ok(wr) {
+        return fail("a struct rebuilt by from_value renders differently", json!({"rebuilt": o3, "want": wr}));
+    }
     if o1 != o2 || o1.as_deref() != Ok(wr) {
         return fail("derived struct and its serde twin render differently, or not as specified", json!({"derived": o1, "twin": o2, "want": wr}));
     }
